@@ -122,6 +122,9 @@ bool Module::initialize(const Json &js_parent)
     for (const auto &item : children_) {
         if (!item.module_ptr->initialize(js_this) && item.required) {
             LogErr("required module `%s' initialize() fail", item.module_ptr->name().c_str());
+            //! undo, in reverse order, what has been initialized so far (including this module's own onInit())
+            state_ = State::kInited;
+            cleanup();
             return false;
         }
     }
@@ -145,6 +148,9 @@ bool Module::start()
     for (const auto &item : children_) {
         if (!item.module_ptr->start() && item.required) {
             LogErr("required module `%s' start() fail", item.module_ptr->name().c_str());
+            //! undo, in reverse order, what has been started so far (including this module's own onStart())
+            state_ = State::kRunning;
+            stop();
             return false;
         }
     }
